@@ -344,6 +344,25 @@ func runC20(p c20Plan, c *stats.Case) error {
 			if outstanding || len(pendingPing[id]) > 0 {
 				continue // ping processing still under way: judged by the ops around it
 			}
+			// (on a loaded machine a long case can outlast the liveness timers of the table: a node that has been
+			// dropped meanwhile is new to the table again and rightly gets the default radius)
+			stillThere := false
+			for _, bk := range tab.VerifSnapshot().Buckets {
+				for _, e := range bk.Entries {
+					if e.ID == id {
+						stillThere = true
+					}
+				}
+				for _, e := range bk.Replacements {
+					if e.ID == id {
+						stillThere = true
+					}
+				}
+			}
+			if !stillThere {
+				c.Class("discarded:node-left-the-table-before-it-was-added-by-hand")
+				continue
+			}
 			l.P.AddEnr(n)
 			want, known := model[id]
 			got, ok := waitRadius(l.P, id, want, known)
